@@ -64,6 +64,7 @@ func main() {
 		extractGovPriority(contracts, genDir)
 		extractCascade(contracts, genDir)
 		extractSubmissionCascade(contracts, genDir)
+		extractServiceRepause(contracts, genDir)
 		if exe := byPath["github.com/meshplus/bitxhub/internal/executor"]; exe != nil {
 			extractContractMethods(exe, contracts, genDir)
 			extractFailedEvents(exe, genDir)
